@@ -172,7 +172,11 @@ func c06Gate(p *Program, r *Report) {
 				}
 				// len(children-derived)
 				if b, ok := c.Call.Value.(*ssa.Builtin); ok && b.Name() == "len" {
-					if anyContains(p.origins(c.Call.Args[0]), children.Name()) {
+					arg := strip(c.Call.Args[0])
+					if ac, ok := arg.(*ssa.Call); ok && ac.Call.StaticCallee() != nil && reads[ac.Call.StaticCallee()] {
+						empty[g.branchEdge(ifi, outcome)] = true
+					}
+					if anyContains(p.origins(arg), "."+children.Name()+"<-") {
 						empty[g.branchEdge(ifi, outcome)] = true
 					}
 				}
